@@ -1193,7 +1193,7 @@ fn round_c11_slow(rt: &tokio::runtime::Runtime, hooks: &Hooks, seed: u64) -> Val
     let lagged = real.len() < expected.len();
     crate::session::rm_dir(&dir);
     json!({
-        "mode": "c11",
+        "mode": "c11slow",
         "seed": seed,
         "config": d,
         "frames": real.len(),
@@ -1229,6 +1229,7 @@ pub fn worker_main(mode: &str, seed: u64, first: u64, count: u64) -> ! {
         let r = std::panic::catch_unwind(std::panic::AssertUnwindSafe(|| match mode {
             "c02" => round_c02(&rt, &hooks, s),
             "c03" => round_c03(&rt, &hooks, s),
+            "c11slow" => round_c11_slow(&rt, &hooks, s),
             _ => round_c11(&rt, &hooks, s),
         }));
         let mut v = match r {
@@ -1249,6 +1250,7 @@ pub fn round_main(mode: &str, round_seed: u64) -> ! {
     let v = match mode {
         "c02" => round_c02(&rt, &hooks, round_seed),
         "c03" => round_c03(&rt, &hooks, round_seed),
+        "c11slow" => round_c11_slow(&rt, &hooks, round_seed),
         _ => round_c11(&rt, &hooks, round_seed),
     };
     println!("{}", v);
